@@ -59,7 +59,13 @@ def horner_chain(x, table, lo, hi):
         acc = x * acc + const_tf((w[2 * i], w[2 * i + 1]))
     return acc
 
-def check_ref(fx, rule, ident, ref, what, body=None, keep=(), inst=None, key=None):
+ANY_LEAF = ("ANYLEAF",)
+def leaf_eq_any(l1, l2):
+    if l1 == ANY_LEAF or l2 == ANY_LEAF:
+        return True
+    return leaf_eq_nan(l1, l2)
+
+def check_ref(fx, rule, ident, ref, what, body=None, keep=(), inst=None, key=None, alt=()):
     rep = fx.rep
     inst = inst or ident
     try:
@@ -75,6 +81,12 @@ def check_ref(fx, rule, ident, ref, what, body=None, keep=(), inst=None, key=Non
     ref = fx.n(ref)
     try:
         m = D.equivalent(t, ref, leaf_eq_nan)
+        # reviewed alternative forms (a guard the present code does not have); ANY_LEAF matches whatever the guard returns
+        for a_ in alt:
+            if m is None:
+                break
+            if D.equivalent(t, fx.n(a_), leaf_eq_any) is None:
+                m = None
     except RuntimeError as e:
         rep.fail(rule, inst, (key or "form:" + ident) + ":budget", "comparison budget exceeded for %s" % ident, where=H.where(b)); return False
     if m is None:
@@ -678,7 +690,14 @@ def check_C16(ctx, rep):
             tan_tab = [lambda r: T(r), lambda r: -1.0 / T(r), lambda r: T(r), lambda r: -1.0 / T(r)]
             def leaf_of(r, i):
                 return RETV(tan_tab[i](r))
-            check_ref(fx, "R41", "TwoFloat::tan", IF(s.is_valid(), quadrant_ref(s, leaf_of), RETV(s)), "invalid -> self; quadrants [T, -1/T, T, -1/T]")
+            # a version that tests the kernel value (or the reduced argument) for zero before dividing is the same function
+            # away from the poles; what it returns at the pole is not judged here (R42z only asks for the test)
+            def leaf_guard_T(r, i):
+                return RETV(T(r)) if i % 2 == 0 else IF(teq(T(r), 0.0), ANY_LEAF, RETV(-1.0 / T(r)))
+            def leaf_guard_r(r, i):
+                return RETV(T(r)) if i % 2 == 0 else IF(teq(r, 0.0), ANY_LEAF, RETV(-1.0 / T(r)))
+            check_ref(fx, "R41", "TwoFloat::tan", IF(s.is_valid(), quadrant_ref(s, leaf_of), RETV(s)), "invalid -> self; quadrants [T, -1/T, T, -1/T]",
+                      alt=(IF(s.is_valid(), quadrant_ref(s, leaf_guard_T), RETV(s)), IF(s.is_valid(), quadrant_ref(s, leaf_guard_r), RETV(s))))
             w = F.words_from_hex(ttabs[0][2])
             rep.check(abs(oracle.f64_of(w[0]) - 1.0 / 3) < 1e-6, "R41", "tan kernel leading coefficient", "tan-kernel-c0", "tan kernel's first coefficient is %r, expected about 1/3" % oracle.f64_of(w[0]), nontrivial=False)
     except vg.Unsupported as u:
@@ -687,9 +706,140 @@ def check_C16(ctx, rep):
     check_kernel_approx(fx, "cos", role["cos"], "cos")
     if 'ttabs' in dir() and len(ttabs) == 1:
         check_kernel_approx(fx, "tan", ttabs[0], "tan")
+    check_sincos_total_error(fx, role)
+    if 'ttabs' in dir() and len(ttabs) == 1:
+        check_tan_total_error(fx, ttabs[0], t_tan, b_tan)
     from .rules_c10 import check_delegation_subset
     check_delegation_subset(rep, f, {"sin", "cos", "tan", "sin_cos"})
     rep.floor("R41", len([o for o in rep.obl if o["rule"] == "R41"]), 4, "trigonometric dispatch tables")
+
+def check_tan_total_error(fx, tab, t_tan, b_tan):
+    """R42z: the reciprocal arms of tan divide by the kernel value without excluding zero, and the reduced argument is
+    exactly zero for the valid inputs x = q (x) P (q odd): tan returns NaN where the true tangent is finite.
+    R43e: away from the poles (|reduced argument| >= 2 rho) the stated tan bound follows from the kernel's relative
+    error, the division bound and the reduction error; within 2 rho of a pole nothing is decided."""
+    from . import approx, errbound as EB
+    from .rules_c10 import module_const
+    rep = fx.rep
+    Fr = _Fr
+    # --- R42z
+    unguarded = []
+    for path, leaf in vg.leaves(t_tan):
+        if leaf[0] != "leaf":
+            continue
+        for n in all_nodes(leaf[1]):
+            if tag(n) == "call" and n[1].startswith("op:div:f64:TwoFloat") and len(n) == 4 and tag(n[2]) == "const":
+                D_ = n[3]
+                inner = set(all_nodes(D_))
+                guarded = any(tag(c) in ("cmp", "call", "not") and (D_ in set(all_nodes(c)) or any(tag(y) == "call" and y[1].startswith("op:sub") and y in inner for y in all_nodes(c)))
+                              and any(tag(z) == "const" and z[1] == "f64" and oracle.f64_of(z[2]) == 0.0 for z in all_nodes(c)) for c, v in path)
+                if not guarded:
+                    unguarded.append(n)
+    rep.check(not unguarded, "R42z", "tan: reciprocal arms exclude a zero kernel value", "tan-pole-unguarded",
+              "tan computes -1.0 / T(r) in the odd quadrants with no test for T(r) == 0, and r = x - round(x/P)*P is exactly 0 for the valid argument x = consts::FRAC_PI_2 "
+              "(q = 1, 1*P = P exactly, P - P = 0, T(0) = 0): the result is NaN although tan(dd(pi/2)) = -6.678e32 is finite; same for x = q*FRAC_PI_2, q odd",
+              where=H.where(b_tan), detail="%d reciprocal leaves, each dominated by a zero test of the divisor or of the reduced argument" % len(unguarded))
+    # --- R43e (away from the poles)
+    x = param(0)
+    try:
+        ms = EB.monomials(k_sin(x, tab).t, x.t)
+    except EB.NotPolynomial as e:
+        rep.fail("R43e", "tan total error", "errbound:tan-not-polynomial", "tan kernel reference form is not a polynomial: %s" % e); return
+    w = F.words_from_hex(tab[2])
+    co = [Fr(oracle.f64_of(w[2 * i])) + Fr(oracle.f64_of(w[2 * i + 1])) for i in range(len(w) // 2)]
+    try:
+        a_t, r_t = approx.kernel_error("tan", co, PI4, nterms=34 + (14 if rep.tier == "thorough" else 0))
+    except Exception as e:
+        rep.fail("R43e", "tan total error", "errbound:tan-approx", "could not bound the tan kernel: %r" % (e,)); return
+    e_rel = EB.eval_error(ms, PI4, min_power=1)          # |evaluation error| / |x|  <=  relative to tan(x) since |tan x| >= |x|
+    eps_k = r_t + e_rel
+    eps = (eps_k + EB.E_DIV_DD) / (1 - eps_k)            # reciprocal arm: (1 + eps_k)^-1 (1 + division error)
+    Pc = module_const(fx.f, "consts::FRAC_PI_2")
+    if Pc is None:
+        rep.fail("R43e", "reduction constant", "anchor-lost:consts::FRAC_PI_2", "consts::FRAC_PI_2 not found (reason=anchor-lost)"); return
+    P = EB.const_value(Pc)
+    with oracle.mpmath.workprec(500):
+        half_pi = oracle.mpf_to_frac(oracle.mpmath.pi / 2)
+    dP = abs(P - half_pi) + Fr(1, 2 ** 480)
+    R = Fr(2 ** 20)
+    qmax = R / P * (1 + EB.E_DIV_DD) + Fr(1, 2)
+    r1 = P / 2 + R * EB.E_DIV_DD
+    rho = qmax * P * EB.E_MUL_DD * (1 + EB.E_ADD_DD) + r1 * EB.E_ADD_DD + qmax * dP
+    # tan arms: |tan r_c - tan r*| <= rho (1 + tan^2 xi), (1 + tan^2 xi)/(1 + tan^2 r*) <= exp(2 tan(pi/4+) rho) <= 1 + 5 rho
+    # cot arms with |r_c| >= 2 rho: |cot r_c - cot r*| <= rho / (|sin r_c| |sin r*|) <= rho (1 + rho/|sin r_c|) / sin^2 r* <= 1.6 rho (1 + cot^2 r*)
+    red = rho * Fr(8, 5)
+    L = EB.log2f
+    detail = {"kernel_rel": "2^%.2f" % L(eps_k), "with_reciprocal": "2^%.2f" % L(eps), "reduction_term": "2^%.2f" % L(red),
+              "undecided": "arguments within 2*rho = 2^%.1f of an odd multiple of pi/2" % L(2 * rho)}
+    rep.check(eps <= Fr(1, 2 ** 50) and red <= Fr(1, 2 ** 80), "R43e", "tan error for 2^-400 <= |x| <= 2^20 away from the poles", "errbound:tan",
+              "tan's bound 2^-50 |tan v| + 2^-80 (1 + tan^2 v) is not established: relative part 2^%.2f, reduction part 2^%.2f" % (L(eps), L(red)), detail=detail)
+
+def check_sincos_total_error(fx, role):
+    """R43e: end-to-end error of sin / cos on |x| <= 2^20 from the pieces the other rules established:
+    approximation error of the kernels (R43), rounding error of their Horner evaluation (perturbation bound over
+    the reference form R41 proved the code equal to), and the argument reduction  r = x - round(x / P) * P  with the
+    crate's own constant P (read from the fact file).  Exact rational arithmetic throughout."""
+    from . import approx, errbound as EB
+    from .rules_c10 import module_const
+    rep = fx.rep
+    Fr = _Fr
+    x = param(0)
+    try:
+        ms = EB.monomials(k_sin(x, role["sin"]).t, x.t)
+        mc = EB.monomials(k_cos(x, role["cos"]).t, x.t)
+    except EB.NotPolynomial as e:
+        rep.fail("R43e", "sin/cos total error", "errbound:not-polynomial", "kernel reference form is not a polynomial in TwoFloat arithmetic: %s" % e); return
+    X = PI4
+    def coeffs(tab):
+        w = F.words_from_hex(tab[2])
+        return [Fr(oracle.f64_of(w[2 * i])) + Fr(oracle.f64_of(w[2 * i + 1])) for i in range(len(w) // 2)]
+    n = 18 + (14 if rep.tier == "thorough" else 0)
+    try:
+        a_s, r_s = approx.kernel_error("sin", coeffs(role["sin"]), X, nterms=n)
+        a_c, _ = approx.kernel_error("cos", coeffs(role["cos"]), X, nterms=n)
+    except Exception as e:
+        rep.fail("R43e", "sin/cos total error", "errbound:approx", "could not bound the kernels: %r" % (e,)); return
+    e_s = EB.eval_error(ms, X); e_c = EB.eval_error(mc, X)
+    e_s_rel = EB.eval_error(ms, X, min_power=1)          # |evaluation error| / |x|
+    # the reduction constant is the crate's own
+    Pc = module_const(fx.f, "consts::FRAC_PI_2")
+    if Pc is None:
+        rep.fail("R43e", "reduction constant", "anchor-lost:consts::FRAC_PI_2", "consts::FRAC_PI_2 not found (reason=anchor-lost)"); return
+    P = EB.const_value(Pc)
+    with oracle.mpmath.workprec(500):
+        half_pi = oracle.mpf_to_frac(oracle.mpmath.pi / 2)
+    slack = Fr(1, 2 ** 480)
+    dP = abs(P - half_pi) + slack
+    R = Fr(2 ** 20)
+    def reduction(xmax):
+        """(bound on |r_c - r*|, bound on |r_c|) for |x| <= xmax in the reduction branch"""
+        qmax = xmax / P * (1 + EB.E_DIV_DD) + Fr(1, 2)
+        r1 = P / 2 + xmax * EB.E_DIV_DD                  # |x - q P| (q = round of the quotient, which C05 puts within 16u^2)
+        mulerr = qmax * P * EB.E_MUL_DD * (1 + EB.E_ADD_DD)
+        rho = mulerr + r1 * EB.E_ADD_DD + qmax * dP
+        return rho, r1 + mulerr + r1 * EB.E_ADD_DD
+    rho, rmax = reduction(R)
+    dom_ok = rmax <= X
+    tot_sin = max(a_s + e_s, a_c + e_c) + rho
+    tot_cos = tot_sin
+    L = EB.log2f
+    detail = {"approx_sin": "2^%.2f" % L(a_s), "approx_cos": "2^%.2f" % L(a_c), "eval_sin": "2^%.2f" % L(e_s), "eval_cos": "2^%.2f" % L(e_c),
+              "reduction": "2^%.2f" % L(rho), "total": "2^%.2f" % L(tot_sin), "monomials": [len(ms), len(mc)],
+              "max_reduced_argument_minus_pi_4": "2^%.2f" % L(max(rmax - Fr(7853981633974483, 10 ** 16), Fr(1, 2 ** 200))),
+              "lemmas": "op error bounds of JMP Alg. 4/6/9/12 (conformance: C03, C04); quotient within 16u^2 (C05's statement; anything below 2^-61 suffices); round exact (C08); q mod 4 exact (scaling by 4)"}
+    rep.check(dom_ok, "R43e", "reduced argument stays in the kernel interval", "errbound:domain",
+              "for |x| <= 2^20 the reduced argument can reach %s, beyond the interval the kernel bounds cover" % float(rmax), detail=detail["max_reduced_argument_minus_pi_4"], nontrivial=False)
+    rep.check(tot_sin <= Fr(1, 2 ** 66), "R43e", "sin, cos absolute error for 2^-400 <= |x| <= 2^20", "errbound:sincos-abs",
+              "approximation + evaluation + reduction error of sin/cos is bounded only by 2^%.2f, the property needs 2^-66: %s" % (L(tot_sin), detail), detail=detail)
+    # relative clause of sin on |x| <= pi/4: direct branch |x| < dd(pi/4); tie zone dd(pi/4) <= |x| <= pi/4 may reduce with |q| <= 1
+    rel_direct = r_s + e_s_rel / (1 - X * X / 6)
+    rho1, _ = reduction(X)
+    sin_lo = Fr(7, 10)                                   # sin(x) >= 0.7 for x >= 0.78
+    rel_tie = (max(a_s + e_s, a_c + e_c) + rho1) / sin_lo
+    rel = max(rel_direct, rel_tie)
+    rep.check(rel <= Fr(1, 2 ** 64), "R43e", "sin relative error for 2^-400 <= |x| <= pi/4", "errbound:sin-rel",
+              "relative error of sin on the primary interval is bounded only by 2^%.2f, the property needs 2^-64" % L(rel),
+              detail={"direct": "2^%.2f" % L(rel_direct), "tie zone (|q| <= 1)": "2^%.2f" % L(rel_tie)})
 
 # ---------------------------------------------------------------- R43 kernel approximation error
 
@@ -724,6 +874,68 @@ def check_kernel_approx(fx, name, table, kind):
               "the %s polynomial kernel does not approximate %s well enough: %s" % (name, kind, "; ".join(msgs)), detail="; ".join(msgs) + " (%d coefficients, exact rationals, critical points isolated)" % len(coeffs))
 
 # ====================================================================== C17
+
+def odd_kernel_errors(fx, tab, kind, X):
+    """(approximation abs, approximation rel, evaluation abs, evaluation error / |x|) of an odd kernel x(1 + x^2 H(x^2)) on |x| <= X"""
+    from . import approx, errbound as EB
+    w = F.words_from_hex(tab[2])
+    co = [_Fr(oracle.f64_of(w[2 * i])) + _Fr(oracle.f64_of(w[2 * i + 1])) for i in range(len(w) // 2)]
+    a, r = approx.kernel_error(kind, co, X, nterms=34 + (14 if fx.rep.tier == "thorough" else 0))
+    x = param(0)
+    ms = EB.monomials(k_sin(x, tab).t, x.t)
+    return a, r, EB.eval_error(ms, X), EB.eval_error(ms, X, min_power=1)
+
+def check_atan_total_error(fx, tab):
+    """R43e: atan / atan2 relative error from the kernel bounds, the evaluation error and the arm transforms (reference form R44/R46)"""
+    from . import errbound as EB
+    rep = fx.rep; Fr = _Fr
+    X = Fr(7, 16) + Fr(1, 2 ** 60)      # the thresholds are tested on a rounded k = 4|x| + 1/4: the breakpoints move by < 2^-100
+    try:
+        a, r, e_abs, e_rel = odd_kernel_errors(fx, tab, "atan", X)
+    except Exception as e:
+        rep.fail("R43e", "atan total error", "errbound:atan", "could not bound the atan kernel: %r" % (e,)); return
+    eps_k = r + e_rel / (1 - X * X / 3)                  # relative to atan(t): atan(t)/t >= 1 - t^2/3
+    # transform t = (x - c)/(1 + c x) or 1/x: at most 8 rounded operations, each within 16u^2 (the division lemma is the largest);
+    # atan is 1-Lipschitz and t/(1+t^2) <= atan t, so a relative perturbation of t is at most that relative perturbation of atan t
+    eps_t = (1 + EB.E_DIV_DD) ** 8 - 1
+    # constant (relative u^2), final sum (3u^2 + 13u^3), on magnitudes <= pi/2 while every arm result is >= atan(7/16) > 0.41
+    glue = (Fr(1, 2 ** 106) + EB.E_ADD_DD) * Fr(4)       # (pi/2)/0.41 < 4
+    rel_atan = eps_k + eps_t * Fr(11, 10) + glue
+    # atan2: y/x within 16u^2 (lemma), +-pi added with |result| >= pi/2 > |a|
+    rel_atan2 = rel_atan + EB.E_DIV_DD + glue
+    L = EB.log2f
+    detail = {"kernel_rel": "2^%.2f" % L(eps_k), "transform": "2^%.2f" % L(eps_t), "atan": "2^%.2f" % L(rel_atan), "atan2": "2^%.2f" % L(rel_atan2),
+              "lemmas": "operator bounds (C03, C04 conformance), division within 16u^2 (C05's statement), no underflow (|x| >= 2^-400)"}
+    rep.check(rel_atan <= Fr(1, 2 ** 70), "R43e", "atan relative error for 2^-400 <= |x| <= 2^60", "errbound:atan",
+              "atan's relative error is bounded only by 2^%.2f, the property needs 2^-70" % L(rel_atan), detail=detail)
+    rep.check(rel_atan2 <= Fr(1, 2 ** 69), "R43e", "atan2 relative error off the axes", "errbound:atan2",
+              "atan2's relative error is bounded only by 2^%.2f, the property needs 2^-69" % L(rel_atan2), detail=detail)
+
+def check_asin_total_error(fx, tab):
+    """R43e: asin / acos from the kernel on |z| <= 1/2 and the half-angle branch pi/2 - 2 K(sqrt((1-|x|)/2)) (reference form R45)"""
+    from . import errbound as EB
+    rep = fx.rep; Fr = _Fr
+    X = Fr(1, 2) + Fr(1, 2 ** 60)
+    try:
+        a, r, e_abs, e_rel = odd_kernel_errors(fx, tab, "asin", X)
+    except Exception as e:
+        rep.fail("R43e", "asin total error", "errbound:asin", "could not bound the asin kernel: %r" % (e,)); return
+    k_abs = a + e_abs
+    k_rel = r + e_rel                                    # asin(z)/z >= 1
+    # half-angle branch: w = (1 - |x|)/2 (2u^2 + 3u^2), z = sqrt(w) within 32u^2 (C13's statement as a lemma); asin' <= 2/sqrt(3) on z <= 1/2
+    eps_z = (1 + 32 * EB.U * EB.U) * (1 + 5 * EB.U * EB.U) - 1
+    big_abs = 2 * (k_abs + Fr(116, 100) * X * eps_z) + Fr(2) * (Fr(1, 2 ** 106) + EB.E_ADD_DD + EB.E_MUL_FP)
+    asin_abs = max(k_abs, big_abs)
+    asin_rel = max(k_rel, big_abs / Fr(52, 100))         # asin(x) >= asin(1/2) > 0.52 in the half-angle branch
+    acos_abs = asin_abs + Fr(4) * (Fr(1, 2 ** 106) + EB.E_ADD_DD)
+    L = EB.log2f
+    detail = {"kernel_abs": "2^%.2f" % L(k_abs), "kernel_rel": "2^%.2f" % L(k_rel), "half_angle_abs": "2^%.2f" % L(big_abs),
+              "asin_abs": "2^%.2f" % L(asin_abs), "asin_rel": "2^%.2f" % L(asin_rel), "acos_abs": "2^%.2f" % L(acos_abs),
+              "lemmas": "operator bounds (C03, C04), sqrt within 32u^2 (C13's statement), no underflow (|x| >= 2^-400)"}
+    rep.check(asin_abs <= Fr(1, 2 ** 45) and asin_rel <= Fr(1, 2 ** 43), "R43e", "asin error on 2^-400 <= |x| <= 1", "errbound:asin",
+              "asin's error is bounded only by 2^%.2f absolute / 2^%.2f relative, the property needs 2^-45 / 2^-43" % (L(asin_abs), L(asin_rel)), detail=detail)
+    rep.check(acos_abs <= Fr(1, 2 ** 45), "R43e", "acos absolute error on [-1, 1]", "errbound:acos",
+              "acos's absolute error is bounded only by 2^%.2f, the property needs 2^-45" % L(acos_abs), detail=detail)
 
 def horner_tables_in(fx):
     tabs = []
@@ -776,6 +988,7 @@ def check_C17(ctx, rep):
             rep.check(worst <= Fr(7, 16), "R44", "atan reduced argument range", "atan-range", "the arm transforms map into |t| <= %s, outside the kernel interval 7/16" % worst,
                       detail="max |t| = %s <= 7/16 (transforms are monotone; endpoints evaluated exactly)" % worst, nontrivial=False)
             check_kernel_approx(fx, "atan", atan_tab, "atan")
+            check_atan_total_error(fx, atan_tab)
     # ---- asin / acos (R45)
     try:
         t, b = fx.tree("TwoFloat::asin")
@@ -794,6 +1007,7 @@ def check_C17(ctx, rep):
                      NAN_LEAF)
             check_ref(fx, "R45", "TwoFloat::asin", ref, "invalid or |x|>1 -> NaN; |x|<=1/2 -> kernel; else pi/2 - 2*kernel(sqrt((1-|x|)/2)) with the sign restored")
             check_kernel_approx(fx, "asin", tabs[0], "asin")
+            check_asin_total_error(fx, tabs[0])
     x = s.asin()
     check_ref(fx, "R45", "TwoFloat::acos", IF(x.is_valid(), RETV(PI2 - x), RETV(x)), "pi/2 - asin(x) when that is valid, else the invalid value", keep=("TwoFloat::asin",))
     # ---- atan2 (R46)
